@@ -468,6 +468,68 @@ impl VisitMut for Lower {
 }
 
 // ---------------------------------------------------------------------------------------------
+// L7: `loop { .. break EXPR; .. }` used for its value  ->  `{ let k2v_brk_N; loop { .. { k2v_brk_N = EXPR; break; } .. } k2v_brk_N }`
+// (Verus rejects break-with-value; deferred initialisation is the same control flow)
+
+struct BreakValues {
+    n: usize,
+}
+
+struct ReplaceBreaks {
+    label: Option<Lifetime>,
+    target: Ident,
+    depth: usize,
+    count: usize,
+}
+
+impl VisitMut for ReplaceBreaks {
+    fn visit_expr_mut(&mut self, e: &mut Expr) {
+        match e {
+            Expr::Loop(_) | Expr::While(_) | Expr::ForLoop(_) => {
+                self.depth += 1;
+                visit_mut::visit_expr_mut(self, e);
+                self.depth -= 1;
+            }
+            Expr::Closure(_) => {}
+            Expr::Break(b) => {
+                let ours = match (&b.label, &self.label) {
+                    (Some(l), Some(m)) => l.ident == m.ident,
+                    (None, _) => self.depth == 0,
+                    (Some(_), None) => false,
+                };
+                if ours {
+                    if let Some(val) = b.expr.take() {
+                        let t = &self.target;
+                        let label = &b.label;
+                        self.count += 1;
+                        *e = parse_quote! { { #t = #val; break #label; } };
+                    }
+                } else {
+                    visit_mut::visit_expr_mut(self, e);
+                }
+            }
+            _ => visit_mut::visit_expr_mut(self, e),
+        }
+    }
+}
+
+impl VisitMut for BreakValues {
+    fn visit_expr_mut(&mut self, e: &mut Expr) {
+        visit_mut::visit_expr_mut(self, e);
+        if let Expr::Loop(l) = e {
+            let target = ident(&format!("k2v_brk_{}", self.n));
+            let mut rb = ReplaceBreaks { label: l.label.as_ref().map(|x| x.name.clone()), target: target.clone(), depth: 0, count: 0 };
+            rb.visit_block_mut(&mut l.body);
+            if rb.count > 0 {
+                self.n += 1;
+                let lp = l.clone();
+                *e = parse_quote! { { let #target; #lp #target } };
+            }
+        }
+    }
+}
+
+// ---------------------------------------------------------------------------------------------
 // markers (loops numbered in source order)
 
 struct Markers {
@@ -609,6 +671,7 @@ fn terminate(stmts: &[Stmt]) -> Vec<Stmt> {
 
 struct Flatten<'a> {
     known: &'a HashSet<String>,
+    path_renames: Vec<(String, String)>,
 }
 
 impl<'a> Flatten<'a> {
@@ -722,6 +785,8 @@ fn lower_fn_parts(sig: &mut Signature, block: &mut Block, errors: &mut Vec<Strin
     for e in lw.errors.iter() {
         errors.push(format!("{}: {}", what, e));
     }
+    let mut bv = BreakValues { n: 0 };
+    bv.visit_block_mut(block);
     let mut mk = Markers { n: 0 };
     mk.mark_block(block);
     let stats = Stats { slice_pats: lw.n_slice_pats, casts: lw.n_casts, loops: mk.n };
@@ -926,7 +991,7 @@ fn main() {
 
     enum Req {
         Fn(String, Option<String>, Vec<(String, String)>, bool),
-        Impl(String, Vec<String>),
+        Impl(String, Vec<String>, Vec<(String, String)>),
         Ty(String),
     }
     let mut rs = Vec::new();
@@ -957,7 +1022,15 @@ fn main() {
             }
             "impl" => {
                 known.insert(w[1].rsplit("::").next().unwrap().to_string());
-                rs.push(Req::Impl(w[1].to_string(), w[2..].iter().map(|s| s.to_string()).collect()));
+                let wpos = w.iter().position(|x| *x == "with").unwrap_or(w.len());
+                let mut renames = Vec::new();
+                for pair in w[(wpos + 1).min(w.len())..].iter().flat_map(|x| x.split(',')) {
+                    if let Some((a, b)) = pair.split_once('=') {
+                        renames.push((a.to_string(), b.to_string()));
+                        known.insert(b.to_string());
+                    }
+                }
+                rs.push(Req::Impl(w[1].to_string(), w[2..wpos].iter().map(|s| s.to_string()).collect(), renames));
             }
             "struct" | "enum" => {
                 known.insert(w[1].rsplit("::").next().unwrap().to_string());
@@ -1002,10 +1075,11 @@ fn main() {
                     let mut block = (*f.block).clone();
                     lower_fn_parts(&mut sig, &mut block, &mut errors, &path)
                 };
-                let mut fl = Flatten { known: &known };
+                let mut fl = Flatten { known: &known, path_renames: renames.iter().filter(|(a, _)| a.contains("::")).cloned().collect() };
                 ts = flatten_tokens(ts, &mut fl);
-                if !renames.is_empty() {
-                    ts = rename_idents(ts, &renames);
+                let id_renames: Vec<(String, String)> = renames.iter().filter(|(a, _)| !a.contains("::")).cloned().collect();
+                if !id_renames.is_empty() {
+                    ts = rename_idents(ts, &id_renames);
                 }
                 let name = newname.clone().unwrap_or_else(|| f.sig.ident.to_string());
                 out.push_str(&format!("//@@ITEM fn {} {}\n", path, name));
@@ -1013,7 +1087,7 @@ fn main() {
                 out.push_str("//@@END\n\n");
                 report.push_str(&format!("fn {} as {} slice_patterns={} casts={} loops={}\n", path, name, st.slice_pats, st.casts, st.loops));
             }
-            Req::Impl(path, methods) => {
+            Req::Impl(path, methods, renames) => {
                 let Some(impls) = idx.impls.get(&path) else {
                     missing.push(path);
                     continue;
@@ -1045,8 +1119,12 @@ fn main() {
                         quote! { #tag #ts }
                     }).collect();
                     let mut ts = quote! { impl #ig #self_ty #wc { #(#body)* } };
-                    let mut fl = Flatten { known: &known };
+                    let mut fl = Flatten { known: &known, path_renames: renames.iter().filter(|(a, _)| a.contains("::")).cloned().collect() };
                     ts = flatten_tokens(ts, &mut fl);
+                    let id_renames: Vec<(String, String)> = renames.iter().filter(|(a, _)| !a.contains("::")).cloned().collect();
+                    if !id_renames.is_empty() {
+                        ts = rename_idents(ts, &id_renames);
+                    }
                     out.push_str(&format!("//@@ITEM impl {} #{}\n", path, k));
                     print_tokens(ts, 0, &mut out);
                     out.push_str("//@@END\n\n");
@@ -1065,7 +1143,7 @@ fn main() {
                 let mut it = it.clone();
                 make_pub_fields(&mut it);
                 let mut ts = it.to_token_stream();
-                let mut fl = Flatten { known: &known };
+                let mut fl = Flatten { known: &known, path_renames: Vec::new() };
                 ts = flatten_tokens(ts, &mut fl);
                 out.push_str(&format!("//@@ITEM type {}\n", path));
                 print_tokens(ts, 0, &mut out);
@@ -1159,6 +1237,12 @@ fn flatten_tokens(ts: TokenStream, fl: &mut Flatten) -> TokenStream {
                         let mut p = Path { leading_colon: if leading { Some(Default::default()) } else { None }, segments: Default::default() };
                         for s in &segs {
                             p.segments.push(PathSegment { ident: s.clone(), arguments: PathArguments::None });
+                        }
+                        let joined: String = segs.iter().map(|s| s.to_string()).collect::<Vec<_>>().join("::");
+                        if let Some((_, to)) = fl.path_renames.iter().find(|(from, _)| joined == *from || joined.ends_with(&format!("::{}", from))) {
+                            out.push(TokenTree::Ident(Ident::new(to, Span::call_site())));
+                            i = j;
+                            continue;
                         }
                         let before = p.segments.len();
                         fl.fix(&mut p);
